@@ -109,8 +109,7 @@ for side in ("left", "right"):
     for inv in (False, True):
         for mat in ("se3", "sim3"):
             for form in ("npy", "mat", "json"):
-                props = (False, True) if side == "right" and mat == "se3" \
-                    else (False, )
+                props = (False, True) if side == "right" else (False, )
                 for prop in props:
                     TRANSF.append((side, inv, prop, mat, form))
 
@@ -413,8 +412,9 @@ def run(ctx):
         "combinations; the thorough tier enumerates the full product",
         "orientation after projecting a non-planar pose is taken from evo's "
         "own project() applied to the model's pre-projection poses",
-        "propagated Sim(3) transformations are not specified by the property "
-        "and are excluded from the lattice",
+        "a propagated Sim(3) transformation is read literally: every "
+        "relative motion D_i becomes D_i*T (4x4 product), the rotation "
+        "blocks of the resulting chain are normalised",
     ]
     return acc
 
